@@ -185,6 +185,22 @@ CLAIMED = {
         design_ref="DESIGN.md §6 C15",
         note="Trusted: Coq kernel + vm_compute; model tied by differential testing (absolute 5e-4 on the fraction). Partial claim as stated; 'consistent demand' is constructed by the generator.",
         technique="Coq model + theorems for error cases and k/area independence + model/impl correspondence + closed-form/invariance oracle"),
+    "C19": dict(
+        text="Coq decision model of main()'s option handling (Model/Cli.v: resolve over tri-state arguments Absent / "
+             "Invalid / Given for k_exp, area, RED1, RED2 on both origins, factors file, -l, CTE_LOCALIZACION). Theorems: "
+             "C19_precedence (the value used is the option if given, else the metadata, else the default 1.0 / 0.0 / "
+             "(0,1.3,0.3)/none; file > -l > metadata location), C19_refuses (any Invalid or out-of-range value on either "
+             "origin, and only those plus a missing factor source, stops the run), C19_exit_codes (65 for bad values, 64 "
+             "for no factor source), C19_runs_when_valid, C19_ranges (accepted k in [0,1], area > 0.001). The tie to the "
+             "code: the cteepbd binary built from /repo is run on the full lattice {option given/not} x {metadata present/"
+             "absent/invalid} with boundary, out-of-range and non-numeric values; exit status, stderr message, absence of a "
+             "result file, echoed origin lines, --json k_exp/arearef/RED factors, --oc recorded metadata are compared with "
+             "the model's prediction; the reported balance is re-computed through the library at the predicted k_exp and "
+             "area. PARTIAL in that clap's own rejections (conflicting options, unknown location given with -l) and the "
+             "process exit are observed, not modelled; text is read as the decimal it denotes (boundaries 0, 1, 0.001 exact).",
+        design_ref="DESIGN.md §6 C19",
+        note="Trusted: Coq kernel + vm_compute; the Python harness that maps command lines/metadata to tri-state arguments (parse oracle: Rust's f32 parser via the runner).",
+        technique="Coq decision model + precedence/refusal theorems + binary-level correspondence over the configuration lattice"),
 }
 
 PENDING_REASON = "not claimed yet in this round: model/theorems for this property are still being built (see DESIGN.md §10 order of work)"
